@@ -485,7 +485,15 @@ def run(prog, rep, tier):
             t = targets[0]
             expr, present = rng_arg(cs.call, t)
             if present is None:
-                rep.info("R4b-forward", f.qualname, "rng may travel through **kwargs to %s" % t.qualname)
+                _kws, _stars = kwargs_of(cs.call)
+                own_kw = f.node.args.kwarg.arg if f.node.args.kwarg is not None else None
+                computed = [x for x in _stars if not (isinstance(x, ast.Name) and x.id == own_kw)]
+                if computed and f.cls is not None:
+                    # the keywords are built somewhere else (a helper, a comprehension over argument names): whether the callee gets the owner's generator, a copy or
+                    # none is not visible at the call
+                    rep.unrec("R4b-forward", f.qualname, "%s receives its keywords through **%s: which generator it is handed is not visible at the call" % (t.qualname, dump(computed[0])[:50]))
+                else:
+                    rep.info("R4b-forward", f.qualname, "rng may travel through **kwargs to %s" % t.qualname)
                 continue
             o = arg_origin(prog, f, expr, ldefs) if present else "ABSENT"
             tgt = t.qualname
